@@ -30,6 +30,7 @@ import (
 	"path/filepath"
 	"runtime"
 	"sort"
+	"strconv"
 	"strings"
 
 	"github.com/ctessum/geom"
@@ -52,7 +53,7 @@ func osmTagsTok(t osm.Tags) string {
 	}
 	s := make([]string, len(t))
 	for i, kv := range t {
-		s[i] = strings.TrimPrefix(kv.Key, "k") + "=" + strings.TrimPrefix(kv.Value, "v")
+		s[i] = strings.TrimPrefix(kv.Key, "k") + "=" + valTok(kv.Value)
 	}
 	return strings.Join(s, ";")
 }
@@ -423,7 +424,8 @@ func pbfLine(f []string) (string, bool) {
 		var vals []string
 		if kv[1] != "" {
 			for _, v := range strings.Split(kv[1], "|") {
-				vals = append(vals, "v"+v)
+				n, _ := strconv.Atoi(v)
+				vals = append(vals, valS(n))
 			}
 		}
 		r := runWith(3, func(rd *countingReader) (*gosm.Data, error) { return gosm.ExtractTag(rd, "k"+kv[0], true, vals...) }, pbf)
